@@ -150,11 +150,27 @@ def handler : Handler := fun op j =>
     let v ← fFloats? j "v"; let lam ← fFloat? j "lam"
     some (ok (outR (l2Prox (vecOf v v.length) lam)))
   | "l21" => do
-    let v ← fFloats? j "v"; let lam ← fFloat? j "lam"; let g ← fNats? j "grp"
+    -- groups: explicit labels `grp`, or (`shape`, `axes` | `axes_none`) of an N-d array, or `blocks` (sizes) of a block array
+    -- with `l2_axis=None`; for complex data the stacked vector (re.., im..) repeats the labelling (`twice`)
+    let v ← fFloats? j "v"; let lam ← fFloat? j "lam"
     let n := v.length
-    if g.length != n then none else
-    let ga := g.toArray
-    some (ok (outR (l21Prox (fun i => ga.getD i.val 0) (vecOf v n) lam)))
+    let twice := (fBool? j "twice").getD false
+    let base := if twice then n / 2 else n
+    let lab : Option (Nat → Nat) :=
+      match fNats? j "grp" with
+      | some g => if g.length != n then none else let ga := g.toArray; some (fun i => ga.getD i 0)
+      | none =>
+        match fNats? j "blocks" with
+        | some sizes => some (fun i => blockGroup sizes (i % base))
+        | none =>
+          match fNats? j "shape" with
+          | none => none
+          | some shape =>
+            let axes := normAxes shape.length (if (fBool? j "axes_none").getD false then none else fInts? j "axes")
+            some (fun i => axisGroup shape axes (i % base))
+    let lab ← lab
+    let la := (List.range n).map lab |>.toArray
+    some (ok (jObj [("out", jFs (Vec.toList (l21Prox (fun i => la.getD i.val 0) (vecOf v n) lam))), ("groups", jNs la.toList)]))
   | "hubersep" => do
     let v ← fFloats? j "v"; let lam ← fFloat? j "lam"; let d ← fFloat? j "delta"
     some (ok (outR (huberSepProx d (vecOf v v.length) lam)))
